@@ -6,8 +6,8 @@ sys.path.insert(0, os.path.join(VERIF, "lib"))
 import plan
 
 TEXT = {
- "C01": ("Bounded proof (Kani/CBMC) that the real kernel-sum and transaction validation code accepts only balanced transactions, with libsecp256k1 replaced by a homomorphic image of the commitment group and oracle bits for signatures / range proofs. Transaction level only.",
-         "partial: chain histories (pipe.rs, txhashset), blocks/coinbase not claimed; model group Z_2^16^2; trusted: rustc->Kani->CBMC->CaDiCaL and the stubs listed in evidence"),
+ "C01": ("Bounded proof (Kani/CBMC) that the real kernel-sum, coinbase-sum, kernel-offset-sum and transaction / body validation code accepts only balanced transactions and consults every signature and range proof (coinbase-flagged outputs included), with libsecp256k1 replaced by a homomorphic image of the commitment group and oracle bits for signatures / range proofs.",
+         "partial: chain histories (pipe.rs, txhashset) and Block::validate as a whole are not claimed; known finding: sum_kernel_offsets ignores the negative offsets when no positive one is non-zero (witness obligation, KNOWN-FINDING); model group Z_2^16^2; trusted: rustc->Kani->CBMC->CaDiCaL and the stubs listed in evidence"),
  "C04": ("Bounded proof (Kani/CBMC) that the retarget functions are total, floored, damped/clamped and that the version schedule / graph weight arithmetic follow the rules, for fully symbolic difficulty windows.",
          "partial: pipe::validate_header sequencing, DifficultyIter (LMDB), PoW and header-MMR root not claimed; bounds on window values stated in evidence"),
  "C05": ("Bounded proof (Kani/CBMC): Cuckatoo cycle verification agrees with an oracle written from the graph definition for every nonce tuple and every assignment of endpoints (proof size 2 quick, 4 thorough); PoW variant selection; proof (de)serialisation bit-exact, in-range, canonical padding.",
@@ -19,7 +19,7 @@ TEXT = {
  "C20": ("Bounded proof (Kani/CBMC) of the recoverability encoding that is left in Rust: key id <-> derivation path round trips, and for both proof-builder generations the rewind message written for (key id, switch) is read back as exactly that for the wallet's own commitment while any other message byte, amount, length or wallet recovers nothing (model keychain with an injective commit).",
          "thin partial claim: everything executed inside libsecp256k1-zkp (BIP32 derivation, commitments, bulletproofs, aggsig, blind sums) and build::transaction are not claimed"),
  "C10": ("Bounded proof (Kani/CBMC) of value round trip, canonical bytes (decode then re-encode reproduces the consumed bytes) and version-independent hashes for the fixed-size consensus objects.",
-         "partial: containers, headers, segments and p2p messages not yet encoded"),
+         "partial: fixed-size consensus / wire objects, the sorted-and-unique rule of body lists, the writer-side order of inputs at v2 / v3 and short-id-only compact block bodies; full transactions, blocks, headers and segments are thorough-tier attempts"),
  "C11": ("Bounded proof (Kani/CBMC): listed decoders and Segment::validate never panic / over-allocate / spin on any byte string or decoded-shape value of the listed sizes.",
          "buffer lengths and shapes enumerated (concrete per query), contents symbolic; allocation ghost stub; dev-profile overflow checks"),
  "C12": ("Bounded proof (Kani/CBMC): cut_through returns exactly the union minus the matched spend pairs (multiset equation), sorted, with CutThrough error iff a duplicate survives.",
@@ -27,11 +27,11 @@ TEXT = {
  "C13": ("Bounded proof (Kani/CBMC) of the stateless height rules: absolute kernel lock heights in blocks, NRD relative-height range, body lock_height.",
          "partial: coinbase maturity, NRD index and every fork/rewind clause need LMDB/file state and are not claimed"),
  "C14": ("Bounded proof (Kani/CBMC) of the arithmetic the pool's fee gate compares (weight, fee, fee shift, shifted fee, accept fee) on real transactions with symbolic fee fields and configuration.",
-         "thin partial claim: TransactionPool::add_to_pool itself did not finish under CBMC even on empty pools (thorough-tier attempts only); pool histories are not claimed"),
- "C16": ("Bounded proof (Kani/CBMC): a segment exists iff its first leaf is inside the MMR, and what from_pmmr produces validates against the root (also under a merged root).",
-         "partial: non-prunable MMRs of 3 leaves quick; the corruption-is-rejected clause is only a thorough-tier attempt under an ideal-hash stub; segmenter/desegmenter end-to-end not claimed"),
- "C19": ("Bounded proof (Kani/CBMC) of frame-header limits for every 11-byte header and chain type, and typed reads over a generic Read.",
-         "partial: Codec under fragmentation, attachments, header batches, handshake not claimed"),
+         "thin partial claim: TransactionPool::add_to_pool itself is a thorough-tier attempt (empty pools, tagging stub for standalone validation); pool histories, eviction and mining selection are not claimed"),
+ "C16": ("Bounded proof (Kani/CBMC): segment identifier arithmetic equals the closed forms of the MMR definition; a segment exists iff its first leaf is inside the MMR and what from_pmmr produces validates against the root (also under a merged root); a fully spent segment's ancestor hash is accepted iff no leaf under the ancestor is unspent in the bitmap.",
+         "partial: MMRs of 3 leaves (completeness) / 8 leaves (pruned ancestor) quick; the corruption-is-rejected clause is only a thorough-tier attempt under an ideal-hash stub; segmenter/desegmenter end-to-end not claimed"),
+ "C19": ("Bounded proof (Kani/CBMC) of frame-header limits for every 11-byte header and chain type, writer/reader agreement on the frame header, and typed message sequences (known, unknown, known) written by the real writer and read back through read_message over a fragmenting reader.",
+         "partial: the streaming Codec state machine is an attempt-tier obligation; attachments, header batches, handshake and timeouts are not claimed"),
 }
 NA = {
  "C02": "every mechanism reads LMDB (FFI) and the file-backed output PMMR; Kani cannot execute either and stubbing them wholesale would check a model, not grin",
@@ -44,7 +44,7 @@ NA = {
 }
 
 # properties that have obligations in the plan for experiments but are NOT claimed (nothing finishes yet)
-HOOK_COMMITS = ["80d9b7d18", "90571269e"]
+HOOK_COMMITS = ["80d9b7d18", "90571269e", "3ee14a2f0"]
 EXPERIMENTAL = {"C15"}
 
 
